@@ -367,6 +367,50 @@ def _levels(c0: int, c1: int, inner0: bool, x0: int, y0: int, m_o: bool, m_i: bo
         tr.trace_stack.top = -1
 
 
+@primitive
+def kwscale(a, scale=None, shift=None):
+    # a user primitive whose raw function is itself built from traceable operations: a KEYWORD value that belongs to an
+    # enclosing trace keeps its dependence through the inner call
+    r = qmul(a, scale)
+    return r if shift is None else padd2(r, shift)
+
+
+@primitive
+def padd2(u, w):
+    return Q(u.v + w.v)
+
+
+defvjp(padd2, lambda ans, u, w: lambda g: g, lambda ans, u, w: lambda g: g)
+defjvp(padd2, lambda g, ans, u, w: g, lambda g, ans, u, w: g)
+defvjp(kwscale, lambda ans, a, scale=None, shift=None: lambda g: qmul(g, scale))
+defjvp(kwscale, lambda g, ans, a, scale=None, shift=None: qmul(g, scale))
+
+
+def kw_levels(c1, x0, s0, m_o, m_i, with_shift):
+    """d/ds [ c1 * d/dx kwscale(x, scale=s) ] = c1 : the positional argument is traced by the inner level, the keyword
+    argument by the outer one; the rule receives the ORIGINAL keyword value (an outer box), not a stripped constant"""
+    def outer(s):
+        def inner(x):
+            return kwscale(x, scale=s, shift=s) if with_shift else kwscale(x, scale=s)
+
+        r = D(inner, Q(x0), m_i)  # d/dx (x * s [+ s]) = s
+        return qmul(r, Q(c1))
+
+    return D(outer, Q(s0), m_o).v == c1
+
+
+def _kw_levels(c1: int, x0: int, s0: int, m_o: bool, m_i: bool, with_shift: bool, k: int) -> bool:
+    """
+    pre: -1 <= k
+    post: _
+    """
+    tr.trace_stack.top = k
+    try:
+        return kw_levels(c1, x0, s0, m_o, m_i, with_shift)
+    finally:
+        tr.trace_stack.top = -1
+
+
 # ---- unary_to_nary: argnum int / tuple / list, extra positional and keyword arguments ---------------------------
 
 
